@@ -70,7 +70,7 @@ CHECKS['C02'] = dict(
          'previous callback, already removed handles, ownsHandle, forEach, nested invoke to depth 3, other lists of the same dispatcher) chosen '
          'online from the model state; every nested result and every call is checked against per-invocation snapshot frames; non-trivial = '
          '>=1 successful remove and >=1 invocation; distinct = distinct trace hash',
-    jobs=JS('drv_cblist', 'asan', 'c02', 5000, 200000, M4, shards=4) + JS('drv_cblist', 'plain', 'c02', 10000, 400000, M4, seed_offset=1, shards=4),
+    jobs=JS('drv_cblist', 'asan', 'c02', 16000, 300000, M4, shards=4) + JS('drv_cblist', 'plain', 'c02', 40000, 800000, M4, seed_offset=1, shards=4),
     assumptions=['model M-list snapshot semantics', 'foreign live handles are only passed to ownsHandle (documented precondition)'],
     technique='online snapshot-frame monitor over generated re-entrant programs (operations issued from inside callbacks to depth 3), ledger, ASan+UBSan',
     level_text='Exploration: re-entrant programs are generated online from the model state, so dangerous compositions (remove the running/next/previous callback, act through '
@@ -87,9 +87,9 @@ CHECKS['C03'] = dict(
          'direct at-most-once-removal / no-loss / no-duplication counts, traversal oracle (no callback twice; callbacks present throughout visited exactly once; none removed before / added after; '
          'order consistent with final list order), structural walk, ledger; schedule perturbation off/random/targeted (incl. the window between before.lock() and the mutex in insert); TSan build; '
          'distinct_nontrivial = distinct lock-acquisition-order hashes (plain builds)',
-    jobs=[J('drv_cblist_mt', 'plain', '', 6000, 300000, shards=8, shards_thorough=16),
-          J('drv_cblist_mt', 'tsan', '', 800, 30000, seed_offset=1, shards=8, shards_thorough=16),
-          J('drv_cblist_mt', 'asan', '', 1500, 40000, seed_offset=2, shards=8, shards_thorough=16)],
+    jobs=[J('drv_cblist_mt', 'plain', '', 40000, 600000, shards=8, shards_thorough=16),
+          J('drv_cblist_mt', 'tsan', '', 2400, 40000, seed_offset=1, shards=8, shards_thorough=16),
+          J('drv_cblist_mt', 'asan', '', 6000, 60000, seed_offset=2, shards=8, shards_thorough=16)],
     assumptions=['x86-TSO only', 'schedules reached by perturbation, not enumerated', 'a linearizability search time-out (5 s) is inconclusive and counted'],
     technique='recorded concurrent histories + offline linearizability checker (Wing-Gong with memoisation, per-key partitioning) + traversal oracle; seeded schedule perturbation through injected policies and guarded preemption points; TSan; ASan',
     level_text='Exploration: thousands of short concurrent histories (<=36 operations each so the search is exact), with race windows widened on purpose; any result set that no sequential execution explains is reported with the history.',
@@ -139,9 +139,9 @@ CHECKS['C06'] = dict(
          'every lock/unlock/atomic operation/unlocked emptiness check/critical section: off, random, or one targeted window (tag x role x n-th visit) widened by 100-1000us; per-event atomic state '
          'machine (CAS: a second consumption is caught at once), conservation after the final drain, payload checksum, FIFO for single-consumer runs without selective predicates, lock-cycle watchdog; '
          'ThreadSanitizer build with instrumented std::list primitives (documented unlocked reads bracketed); distinct_nontrivial = distinct lock-acquisition-order hashes observed (plain builds)',
-    jobs=[J('drv_queue_mt', 'plain', 'c06', 1600, 80000, shards=8, shards_thorough=16),
-          J('drv_queue_mt', 'tsan', 'c06', 240, 8000, seed_offset=1, shards=8, shards_thorough=16),
-          J('drv_queue_mt', 'asan', 'c06', 400, 10000, seed_offset=2, shards=8, shards_thorough=16)],
+    jobs=[J('drv_queue_mt', 'plain', 'c06', 8000, 160000, shards=8, shards_thorough=16),
+          J('drv_queue_mt', 'tsan', 'c06', 800, 12000, seed_offset=1, shards=8, shards_thorough=16),
+          J('drv_queue_mt', 'asan', 'c06', 1600, 20000, seed_offset=2, shards=8, shards_thorough=16)],
     assumptions=['x86-TSO only', 'schedules reached by perturbation, not enumerated', 'HeterEventQueue concurrent runs not included yet'],
     technique='stress + seeded schedule perturbation through the injected Threading policy and guarded preemption points; exactly-once ledger (CAS state machine) + conservation + FIFO oracles; ThreadSanitizer with list shim; ASan',
     level_text='Exploration: thousands of multi-threaded runs with deliberately widened race windows; every consumption is recorded by compare-and-swap so duplication is caught at the event, loss at the drain; '
@@ -159,7 +159,7 @@ CHECKS['C07'] = dict(
          'parking scenarios follow a template aimed at the window named in the statement; verdicts from state at quiescence (enqueuers joined, every waiter in the waiter list): events pending + '
          'notification enabled => lost wake-up; wait() covered by one DisableQueueNotify lifetime must not return; waitFor false only after its timeout; wait/true only after some enqueue began; '
          'distinct_nontrivial = distinct lock-order hashes',
-    jobs=[J('drv_wait', 'plain', '', 1600, 60000, shards=8, shards_thorough=16), J('drv_wait', 'tsan', '', 300, 6000, seed_offset=1, shards=8, shards_thorough=16)],
+    jobs=[J('drv_wait', 'plain', '', 10000, 200000, shards=8, shards_thorough=16), J('drv_wait', 'tsan', '', 1200, 16000, seed_offset=1, shards=8, shards_thorough=16)],
     assumptions=['liveness restated as a state verdict at quiescence (DESIGN §5 C07)', 'fairness among several waiters is not checked'],
     technique='stress with targeted schedule perturbation through injected Mutex/Atomic/ConditionVariable policies; parked-waiter state oracle; interval (tick) oracle; TSan',
     level_text='Exploration: thousands of scenarios, each with one race window deliberately widened; the lost-wake-up verdict is read from the condition variable\'s waiter list once nobody is left to notify.',
@@ -174,7 +174,7 @@ CHECKS['C08'] = dict(
          'slots, copy/move/swap of containers holding content, destruction of containers with content; every callback/payload object is a counted type: double '
          'destruction, use after destruction and, at every quiescent point, live instances != model content are violations; LeakSanitizer at exit; '
          'non-trivial/distinct as in C02/C05',
-    jobs=JS('drv_cblist', 'asan', 'c08', 1600, 60000, M4, shards=4) + JS('drv_queue', 'asan', 'c08', 1400, 60000, MQ, seed_offset=2, shards=4),
+    jobs=JS('drv_cblist', 'asan', 'c08', 4000, 80000, M4, shards=4) + JS('drv_queue', 'asan', 'c08', 4200, 80000, MQ, seed_offset=2, shards=4),
     assumptions=['a removed callback must be released by the next quiescent point (no invocation in progress)'],
     technique='instance ledger of counted callback/payload types checked at every quiescent point + ASan/LeakSanitizer, driven by the list and queue monitors in lifetime mode',
     level_text='Exploration: the ledger knows every live instance by kind and id; after each top-level operation the live set must equal what the model says the containers hold, and after destruction it must be empty.',
@@ -191,8 +191,8 @@ CHECKS['C09'] = dict(
          'requires the exception to reach the caller unchanged (VFault / bad_alloc; a throw that dies in noexcept is caught by the terminate handler), compares the observable content with the pre-call '
          'model for the strong-guarantee operations, with the read-back-and-constrained model for the others, continues the rest of the history under the model and checks the ledger after destruction; '
          '1 in 5 runs arms a second fault later; evaluations = histories, non-trivial = history with >=20 fault points, distinct = history hash',
-    jobs=JS('drv_fault', 'asan17-fault', '', 160, 8000, [0x03, 0x0c, 0x30, 0xc0], shards=4, shards_thorough=8)
-         + JS('drv_fault', 'clang-asan17-fault', '', 64, 2000, [0x0f, 0xf0], seed_offset=1, shards=8, shards_thorough=8),
+    jobs=JS('drv_fault', 'asan17-fault', '', 1200, 24000, [0x03, 0x0c, 0x30, 0xc0], shards=4, shards_thorough=8)
+         + JS('drv_fault', 'clang-asan17-fault', '', 400, 6000, [0x0f, 0xf0], seed_offset=1, shards=8, shards_thorough=8),
     assumptions=['takeEvent, ScopedRemover::reset and dispatcher copy-assignment are not in the statement\'s strong-guarantee list: after a fault their result is read back and only constrained',
                  'after an exception escaping a processing call any part of the batch may be gone, events enqueued meanwhile must all remain'],
     technique='fault enumeration: count-down throwing from every user-code point and every allocation of every operation of generated histories, differential model oracle, instance ledger, ASan+LeakSanitizer',
@@ -226,8 +226,8 @@ CHECKS['C11'] = dict(
          'offline join: an observation "empty" [tc,tr] is a violation if an event whose enqueue returned before tc was fully consumed (end of its listener / start of the take or clear call) only after tr; '
          'non-trivial: (a) as C05, (b) distinct lock-order hashes; the run reports how many observations had prior events',
     jobs=JS('drv_queue', 'asan', 'c11', 2100, 100000, MQ, shards=4)
-         + [J('drv_queue_mt', 'plain', 'c11', 1200, 60000, seed_offset=3, shards=8, shards_thorough=16),
-            J('drv_queue_mt', 'tsan', 'c11', 160, 6000, seed_offset=4, shards=8, shards_thorough=16)],
+         + [J('drv_queue_mt', 'plain', 'c11', 6000, 120000, seed_offset=3, shards=8, shards_thorough=16),
+            J('drv_queue_mt', 'tsan', 'c11', 600, 10000, seed_offset=4, shards=8, shards_thorough=16)],
     assumptions=['consumption-complete ticks are taken at the earliest moment the statement allows, so clock placement can hide but never invent a violation'],
     technique='online monitor (observer = listener) + offline history checker over tick-stamped observations and per-event ledger (observer = other thread), schedule perturbation, TSan',
     level_text='Exploration: millions of emptiness observations per thorough run, joined with the event ledger by logical time.',
@@ -275,7 +275,7 @@ CHECKS['C14'] = dict(
          'expected prototype is computed by an independent std::is_invocable fold; every listener and predicate call is checked online; payload ledger; non-trivial: queues - >=3 prototypes enqueued, a '
          'processIf over own and foreign events, a slot recycled to another kind, >=1 listener call; lists/dispatchers - listeners of >=3 prototypes, a callable accepted by several prototypes, a successful '
          'remove, >=1 call; distinct = trace hash + configuration',
-    jobs=JS('drv_heter', 'asan17', 'all', 9000, 450000, MH, shards=2, shards_thorough=4) + JS('drv_heter', 'clang-asan17', 'pif', 4500, 180000, MH, seed_offset=1, shards=2, shards_thorough=4),
+    jobs=JS('drv_heter', 'asan17', 'all', 36000, 900000, MH, shards=2, shards_thorough=4) + JS('drv_heter', 'clang-asan17', 'pif', 18000, 360000, MH, seed_offset=1, shards=2, shards_thorough=4),
     assumptions=['processIf completeness is not asserted (only: right prototypes, queue order per prototype, at most one examination per event, accepted events dispatched once, result)',
                  'listener changes from inside callbacks belong to C02'],
     technique='online differential monitor with independent prototype-selection oracle, typed payload ledger, slot-recycling model, g++ and clang++, ASan+UBSan (type confusion shows as wild reads)',
@@ -349,7 +349,7 @@ CHECKS['C19'] = dict(
     rule='C01/C02/C10 histories in which the generation counter is placed 0..40 steps before 2^32 (guarded hook) at random points - idle, inside '
          'callbacks of running nested invocations, around copy/move/swap - and the history continues; invocations in progress at an observed wrap '
          'are relaxed exactly as stated, all others strict; non-trivial = >=1 remove and >=1 invocation; distinct = trace hash',
-    jobs=JS('drv_cblist', 'asan', 'c19', 4000, 150000, M4, shards=4) + JS('drv_cblist', 'plain', 'c19', 8000, 300000, M4, seed_offset=1, shards=4),
+    jobs=JS('drv_cblist', 'asan', 'c19', 12000, 200000, M4, shards=4) + JS('drv_cblist', 'plain', 'c19', 32000, 600000, M4, seed_offset=1, shards=4),
     assumptions=['the wrap is observed by reading the real counter through the guarded friend hook'],
     technique='runtime monitor with guarded counter-placement hook: histories continue across an observed 2^32 wrap; relaxed frames for in-progress invocations only',
     level_text='Exploration: the generation counter is placed 0..40 additions before 2^32 at random points (idle, inside callbacks, around copy/move/swap); thousands of real wraps are '
@@ -364,7 +364,7 @@ def _c20_jobs():
     for v in allv:
         tiers = ('quick', 'thorough') if v in quick else ('thorough',)
         for drv, mask in (('drv_cblist', 0x100), ('drv_dispatch', 0x1000), ('drv_queue', 0x80)):
-            jobs.append(J(drv, v, 'c20', 320, 5000, defs=['-DVF_CFG_MASK=0x%x' % mask], shards=4, shards_thorough=4, tiers=tiers))
+            jobs.append(J(drv, v, 'c20', 1200, 8000, defs=['-DVF_CFG_MASK=0x%x' % mask], shards=4, shards_thorough=4, tiers=tiers))
     # prior memory: plain -O0 builds with the pool storage left UNDEFINED, under valgrind memcheck (uninitialised reads are fatal)
     vg = ['valgrind', '-q', '--error-exitcode=99', '--undef-value-errors=yes', '--track-origins=no']
     for drv, mask in (('drv_cblist', 0x100), ('drv_dispatch', 0x1000), ('drv_queue', 0x80)):
